@@ -17,7 +17,7 @@ import tempfile
 import tokenize
 import traceback
 
-from .common import Part, watchdog, Timeout, REPO
+from .common import Part, watchdog, Timeout, REPO, reset_global_memo
 from . import corpus
 from . import progspace as ps
 from . import names_run
@@ -269,7 +269,7 @@ def run_text(P, text, fn, label, part, cursors, wit):
     seen = set()
     # the builtin scope is a process-global memo (RuntimeName._instance ...): every text starts from a fresh one,
     # otherwise a failure may depend on what this worker analysed before and not reproduce on replay
-    supp.scope.builtin_scope.__dict__.pop('names', None)
+    reset_global_memo()
     for sig, what in check_lint(P, text, fn, label, part):
         if sig not in seen:
             seen.add(sig)
